@@ -540,20 +540,6 @@ def _obs_colens(c):
                 est = K["SpyMember"](inner=base, tag="m%d" % i)
             ests.append(("e%d" % i, est, _entry_key(key)))
         return ests
-    ests = []
-    for i, (drop, key, inner) in enumerate([]):
-        if drop:
-            est = "drop"
-        else:
-            if inner == "tsf":
-                base = TimeSeriesForestClassifier(n_estimators=3, random_state=c.get("rs", 0) + i)
-            elif inner == "rise":
-                base = RandomIntervalSpectralForest(n_estimators=3, min_interval=4, acf_lag=3, acf_min_values=2,
-                                                    random_state=c.get("rs", 0) + i)
-            else:
-                base = K["CentroidMember"](sharp=1 + i % 3)
-            est = K["SpyMember"](inner=base, tag="m%d" % i)
-        ests.append(("e%d" % i, est, _entry_key(key)))
     o = {"ytr": list(np.asarray(ytr)), "yte": list(yte), "n_test": len(Xte), "names": list(Xtr.columns)}
     _fresh_reference(c, o, build, Xtr, ytr, Xte)        # first: the spy log must end with the object under observation
     _CE_LOG.clear()
@@ -990,10 +976,48 @@ def _expected_avg(o):
     return out / len(mats)
 
 
+def _rk(site):
+    a, _, b = site.partition(":")
+    return a + ":refit-differs-from-fresh-fit" + (":" + b if b else "")
+
+
+def _check_refit_vs_fresh(c, o, site, fails):
+    """a refitted object must behave like a new object fitted once on the last training data (same seeds)"""
+    if not c.get("hist") or "fresh_fit_err" not in o:
+        return
+    if c.get("algo") == "muse" and any(h.get("L", c["L"]) != c["L"] for h in c["hist"]):
+        # MUSE.fit appends to self.window_sizes and shrinks self.max_window without resetting them (known finding):
+        # only a refit on ANOTHER series length can differ through that mechanism
+        site = site + ":series-length-changed"
+    reg = c.get("algo") == "reg"
+    if bool(o.get("fit_err")) != bool(o["fresh_fit_err"]):
+        fails.append((_rk(site), "refit: fit %s; fresh object: fit %s" % (o.get("fit_err") or "ok", o["fresh_fit_err"] or "ok")))
+        return
+    if o.get("fit_err"):
+        return
+    if not reg and _lab_list(o["classes"]) != _lab_list(o["fresh_classes"]):
+        fails.append((_rk(site), "classes_ after refit %r, fresh object %r" % (o["classes"], o["fresh_classes"])))
+        return
+    mine, mine_err = (o.get("pred"), o.get("pred_err")) if reg else (o.get("proba"), o.get("proba_err"))
+    if o.get("member_raised"):
+        return
+    if bool(mine_err) != bool(o["fresh_out_err"]):
+        fails.append((_rk(site), "refit: %s; fresh object: %s" % (mine_err or "ok", o["fresh_out_err"] or "ok")))
+        return
+    if mine_err:
+        return
+    A, B = np.array(mine, dtype=float), np.array(o["fresh_out"], dtype=float)
+    if A.shape != B.shape or not np.allclose(A, B, rtol=0, atol=1e-9, equal_nan=True):
+        fails.append((_rk(site), "after refit %r (shape %r), fresh object %r (shape %r)" % (
+            A.reshape(-1)[:6].tolist(), A.shape, B.reshape(-1)[:6].tolist(), B.shape)))
+
+
 def oracle(c, out):
     o = _observe(c)
     fails = []
     kind = c["kind"]
+    if kind in ("clf", "indiv", "colens", "tsffeat") and c.get("hist"):
+        _check_refit_vs_fresh(c, o, c.get("algo", kind), fails)
     if kind == "feat":
         if o["err"]:
             return fails
@@ -1128,6 +1152,18 @@ def features(c, out):
         if _type_kind(ls[0]) == "int":
             s = sorted(set(ls))
             f.append("contiguous" if s == list(range(s[0], s[0] + len(s))) and s[0] == 0 else "non-contiguous")
+    if c.get("hist"):
+        last = set(_lab_list(c["labels"]))
+        for h in c["hist"]:
+            prev = set(_lab_list(h["labels"]))
+            rel = ("same" if prev == last else "earlier-superset" if prev > last else "earlier-subset" if prev < last
+                   else "disjoint" if not (prev & last) else "overlap")
+            if {x[0] for x in prev} != {x[0] for x in last}:
+                rel = "other-dtype"
+            f.append("refit=" + rel)
+        f.append("refits=%d" % len(c["hist"]))
+    if c.get("histL"):
+        f.append("refits=%d" % len(c["histL"]))
     if o.get("fit_err"):
         f.append("fit=" + o["fit_err"])
     if o.get("proba_err"):
@@ -1168,6 +1204,54 @@ def _labels(rng, n, k, style, balanced):
         y = list(ls) + [ls[0] if rng.random() < 0.7 else rng.choice(ls) for _ in range(n - k)]
         head = y[:k]; tail = y[k:]; rng.shuffle(tail); y = head + tail
     return y, ls
+
+
+INT_POOL = list(range(-20, 60)) + [-1000000, 999999, 1 << 40]
+STR_POOL = ["a", "b", "c", "d", "e", "zz", "B", "A0", "10", "9", "2", "100", "1", "01", "cat", "Dog", "bird", "_x", "Zed", "ant2"]
+L_CHOICES = {"tsf": [4, 5, 6, 8, 9, 12, 16, 17, 25], "reg": [4, 5, 8, 12, 16], "rise": [8, 9, 12, 16], "stsf": [16, 17, 20, 24],
+             "boss": [9, 10, 11, 12, 14], "cboss": [9, 10, 11, 12, 14], "tde": [9, 10, 12], "muse": [10, 12], "indiv": [10, 11, 12, 14],
+             "colens": [8, 9, 12]}
+
+
+def _add_history(rng, c, algo, relation=None):
+    """refit history: the SAME object is first fitted on one or two other panels whose label set is a superset /
+    subset of, disjoint from, of another dtype than, or equal to the final one (sometimes another series length)"""
+    if algo == "reg":
+        c["hist"] = [{"labels": [rng.randrange(-40, 41) / 4.0 for _ in range(rng.randrange(3, 7))], "xseed": rng.randrange(1 << 30)}
+                     for _ in range(rng.choice([1, 1, 2]))]
+        if rng.random() < 0.3:
+            c["hist"][0]["L"] = rng.choice(L_CHOICES["reg"])
+        return c
+    last = list(dict.fromkeys(c["labels"]))
+    is_int = not isinstance(last[0], str)
+    pool = [v for v in (INT_POOL if is_int else STR_POOL) if v not in last]
+    hist = []
+    for _ in range(rng.choice([1, 1, 1, 2])):
+        rel = relation or rng.choice(["superset", "superset", "subset", "disjoint", "dtype", "same", "overlap"])
+        if rel == "superset":
+            ls = last + rng.sample(pool, rng.randrange(1, 3))
+        elif rel == "subset" and len(last) >= 3:
+            ls = rng.sample(last, rng.randrange(2, len(last)))
+        elif rel == "disjoint":
+            ls = rng.sample(pool, rng.randrange(2, 4))
+        elif rel == "dtype":
+            ls = rng.sample(STR_POOL if is_int else INT_POOL, rng.randrange(2, 4))
+        elif rel == "overlap":
+            ls = rng.sample(last, max(1, len(last) - 1)) + rng.sample(pool, 1)
+        elif rel == "same":
+            ls = list(last)
+        else:
+            ls = last + rng.sample(pool, 1)
+        rng.shuffle(ls)
+        n = rng.randrange(max(len(ls), 5 if algo in ("tde", "muse") else 3), max(len(ls), 5) + 5)
+        h = {"labels": [ls[i % len(ls)] for i in range(n)], "xseed": rng.randrange(1 << 30), "yas": rng.choice(["np", "series"])}
+        if rng.random() < 0.25:
+            Ls = [L for L in L_CHOICES.get(algo, [c["L"]]) if L > c.get("params", {}).get("min_interval", 0) + 1]
+            if Ls:
+                h["L"] = rng.choice(Ls)
+        hist.append(h)
+    c["hist"] = hist
+    return c
 
 
 def _clf_case(rng, algo, tier):
@@ -1353,11 +1437,35 @@ def gen_cases(tier, rng):
             ("muse", 6, 120), ("reg", 14, 400)]
     for algo, nq, nth in plan:
         for _ in range(nq if q else nth):
-            cases.append(_clf_case(rng, algo, tier))
+            c = _clf_case(rng, algo, tier)
+            if rng.random() < 0.3:
+                _add_history(rng, c, algo)
+            cases.append(c)
     for _ in range(12 if q else 300):
-        cases.append(_indiv_case(rng))
+        c = _indiv_case(rng)
+        if rng.random() < 0.4:
+            _add_history(rng, c, "indiv")
+        cases.append(c)
     for _ in range(30 if q else 900):
-        cases.append(_colens_case(rng))
+        c = _colens_case(rng)
+        if rng.random() < 0.3:
+            _add_history(rng, c, "colens")
+        cases.append(c)
+    # refit history, systematically: every classifier x every relation between the earlier and the last label set
+    for algo in ("tsf", "rise", "stsf", "boss", "cboss", "tde", "muse", "indiv", "colens", "reg"):
+        for rel in ("superset", "subset", "disjoint", "dtype", "same"):
+            for rep in range(1 if q else 4):
+                if algo == "reg" and rel != "superset":
+                    continue
+                c = (_indiv_case(rng) if algo == "indiv" else _colens_case(rng) if algo == "colens" else _clf_case(rng, algo, tier))
+                if algo in ("boss", "cboss", "tde", "indiv") and c["L"] < 10:
+                    c["L"] = 10
+                if rel == "subset" and algo != "reg" and len(set(map(str, c["labels"]))) < 3:
+                    ls = list(dict.fromkeys(c["labels"]))
+                    extra = [v for v in (STR_POOL if isinstance(ls[0], str) else INT_POOL) if v not in ls][0]
+                    c["labels"] = c["labels"] + [extra]
+                _add_history(rng, c, algo, relation=rel)
+                cases.append(c)
     for _ in range(60 if q else 3000):
         cases.append(_base_random(rng))
     for _ in range(40 if q else 2000):
@@ -1371,6 +1479,8 @@ def gen_cases(tier, rng):
         L = rng.randrange(1, 40)
         cases.append({"kind": "tsfit", "L": L, "m": rng.choice([None, None, 0, 1, 2, 3, 4, 7, L, L + 1]), "nest": rng.randrange(1, 5),
                       "n": rng.randrange(2, 6), "rs": rng.randrange(1 << 20), "xseed": rng.randrange(1 << 20), "reg": rng.random() < 0.25})
+        if rng.random() < 0.5:                           # the same forest object was fitted on other lengths before
+            cases[-1]["histL"] = [rng.randrange(1, 30) for _ in range(rng.choice([1, 1, 2]))]
     # column ensemble: a 'drop' entry / an empty selection in first, middle, last position; the members sit on
     # DISTINCT columns whose class signal differs (column j is shifted by 2j patterns), inner classifiers differ
     pos_sets = [[0], [1], [2], [0, 1], [1, 2], [0, 2]] if not q else [[0], [1], [2], [0, 2]]
